@@ -14,8 +14,9 @@ fn first_header_garbage(full: bool) {
     let valid = n == 6 && magic_ok && b[4] == LZIP_VERSION && crate::lzip::decode_dict_size(b[5]).is_ok();
     kani::assume(!valid);
     let mut r = LZIPReader::new(src).unwrap();
-    let mut out = [0u8; 4];
-    let res = r.read(&mut out);
+    // start_next_member() is what read() calls first; Ok(false) is what read() turns into "end of data, Ok(0)".
+    // (Calling read() itself sends CBMC through the LZMA decode loop on the - infeasible - valid-header path: > 20 min.)
+    let res = r.start_next_member();
     assert!(res.is_err(), "C04-D: input that is not an LZIP member was decoded as an empty file");
     kani::cover!(n == 6 && magic_ok && b[4] != LZIP_VERSION, "unsupported version");
     kani::cover!(n == 6 && magic_ok && b[4] == LZIP_VERSION, "bad dictionary byte");
@@ -24,13 +25,13 @@ fn first_header_garbage(full: bool) {
     core::mem::forget(r);
 }
 
-//@ {"name":"c04d_lzip_first_header_invalid","props":["C04","C06"],"obligation":"C04-D","timeout":1200,"mem_gb":9,"functions":["lzip::reader::LZIPReader::read","lzip::reader::LZIPReader::start_next_member","lzip::LZIPHeader::parse","lzip::decode_dict_size"],"bounds":"source = 6 arbitrary bytes that are NOT a valid header (wrong magic, version, or dictionary byte); one read call; unwind 10","assumes":[]}
+//@ {"name":"c04d_lzip_first_header_invalid","props":["C04","C06"],"obligation":"C04-D","timeout":1200,"mem_gb":9,"functions":["lzip::reader::LZIPReader::start_next_member (first thing LZIPReader::read does)","lzip::LZIPHeader::parse","lzip::decode_dict_size"],"bounds":"source = 6 arbitrary bytes that are NOT a valid header (wrong magic, version, or dictionary byte); start_next_member on a fresh reader; unwind 10","assumes":[]}
 #[kani::proof]
 #[kani::unwind(10)]
 #[kani::stub(crate::decoder::LZMADecoder::new, crate::decoder::verif_stubs_dec::verif_havoc_decoder)]
 fn c04d_lzip_first_header_invalid() { first_header_garbage(true); }
 
-//@ {"name":"c04d_lzip_first_header_truncated","props":["C04","C05"],"obligation":"C04-D","timeout":1200,"mem_gb":9,"functions":["lzip::reader::LZIPReader::read","lzip::reader::LZIPReader::start_next_member","lzip::LZIPHeader::parse"],"bounds":"source = 1..=5 arbitrary bytes then end of input; one read call; unwind 10","assumes":[]}
+//@ {"name":"c04d_lzip_first_header_truncated","props":["C04","C05"],"obligation":"C04-D","timeout":1200,"mem_gb":9,"functions":["lzip::reader::LZIPReader::start_next_member (first thing LZIPReader::read does)","lzip::LZIPHeader::parse"],"bounds":"source = 1..=5 arbitrary bytes then end of input; start_next_member on a fresh reader; unwind 10","assumes":[]}
 #[kani::proof]
 #[kani::unwind(10)]
 #[kani::stub(crate::decoder::LZMADecoder::new, crate::decoder::verif_stubs_dec::verif_havoc_decoder)]
@@ -87,5 +88,27 @@ fn c04c_lzip_trailer_fields() {
     assert!(res.is_ok() == good, "C04-C: LZIP trailer accepted/rejected against the three field comparisons");
     kani::cover!(good, "matching trailer");
     kani::cover!(!good && t_crc == CRC32.checksum(&data), "size mismatch only");
+    core::mem::forget(r);
+}
+
+// C12: every member is decoded with the dictionary size of ITS OWN header (members of one file may differ).
+//@ {"name":"c12_lzip_next_member_own_dict","props":["C12","C02"],"obligation":"C12-A","timeout":1500,"mem_gb":9,"functions":["lzip::reader::LZIPReader::start_next_member","lzip::LZIPHeader::parse","lzma_reader::LZMAReader::new"],"bounds":"previous member header with a 4 KiB dictionary; next member header with dictionary byte 12..=20 (4 KiB .. 1 MiB, fraction 0; symbolic); unwind 12","assumes":[]}
+#[kani::proof]
+#[kani::unwind(12)]
+#[kani::stub(crate::decoder::LZMADecoder::new, crate::decoder::verif_stubs_dec::verif_havoc_decoder)]
+fn c12_lzip_next_member_own_dict() {
+    let db: u8 = kani::any();
+    kani::assume(db >= 12 && db <= 20);
+    let mut bytes = [0u8; 11];
+    bytes[0] = b'L'; bytes[1] = b'Z'; bytes[2] = b'I'; bytes[3] = b'P'; bytes[4] = 1; bytes[5] = db;
+    let mut r = LZIPReader::new(Src::<11>::full(bytes)).unwrap();
+    r.current_header = Some(LZIPHeader { version: 1, dict_size: 4096 });
+    let res = r.start_next_member();
+    assert!(matches!(res, Ok(true)));
+    let want = 1u32 << db;
+    assert!(r.current_header.as_ref().unwrap().dict_size == want);
+    let got = r.lzma_reader.as_ref().unwrap().verif_dict_buf_size();
+    assert!(got as u64 >= want as u64, "C12: member decoded with a smaller dictionary than its own header declares");
+    kani::cover!(db == 20, "1 MiB member after a 4 KiB member");
     core::mem::forget(r);
 }
